@@ -19,6 +19,7 @@ from __future__ import annotations
 import copy
 import json
 import logging
+import math
 import multiprocessing as mp
 import struct
 
@@ -82,6 +83,11 @@ def gen_case(rng, idx, thorough):
     c0["betas"] = (b1, c0["betas"][1])
     c0["beta3"] = rng.choice([-1.0, 0.25]) if b1 != 0.0 else -1.0
     c0["max_dim"] = [2, 3, 1024, 1][(idx // 3) % 4]
+    cap = {1: 6, 2: 12}.get(c0["max_dim"])
+    if cap is not None:                                # blocked parameters, but a bounded number of blocks (the model's dicts are association lists)
+        small = [sh for sh in c01.SHAPES if math.prod(sh) <= cap]
+        for g in case["groups"]:
+            g["shapes"] = [sh if math.prod(sh) <= cap else rng.choice(small) for sh in g["shapes"]]
     if idx % 4 == 1:
         c0["start"] = c0["freq"]                       # preconditioning starts early: roots / eigenbases are non-trivial state
     if c0["ignored"] == [0]:
@@ -399,13 +405,15 @@ def cnats(l):
 
 
 def cZs(l):
-    """A list of 64-bit patterns as primitive-int literals (two 32-bit halves per word; Z numerals cost ~0.5 ms each to parse in coqc,
-    primitive ints 0.02 ms); the case file converts them with Uint63.to_Z, the checker works on Z."""
-    out = []
+    """A list of 64-bit patterns as primitive-int literals: [number of words; the bit stream in 62-bit chunks] (Z numerals cost ~0.5 ms each
+    to parse in coqc, primitive ints 0.02 ms); the case file converts them with Uint63.to_Z, the checker works on Z."""
+    big = 0
     for x in l:
-        x &= (1 << 64) - 1
-        out.append(hex(x >> 32))
-        out.append(hex(x & 0xFFFFFFFF))
+        big = (big << 64) | (x & ((1 << 64) - 1))
+    out = [hex(len(l))]
+    n = (64 * len(l) + 61) // 62
+    for i in range(n):
+        out.append(hex((big >> (62 * (n - 1 - i))) & ((1 << 62) - 1)))
     return "[" + ";".join(out) + "]"
 
 
@@ -431,8 +439,8 @@ def coq_case(res) -> str:
     names = res["names"]
     k2p = "[" + "; ".join(f"({cs(n)}, {i}%nat)" for i, n in enumerate(names)) + "]"
     k2pl = "[" + "; ".join(f"({cs(names[i])}, {i}%nat)" for i in res["order_load"]) + "]"
-    loads = [f"agree_load k2p_load s own_state own_groups {coutcome(o)}" for o in res["own_outcomes"]]
-    loads += [f"agree_load k2p_load s {cstate(m['state'])} {cstrs(m['groups'])} {coutcome(m['outcome'])}" for m in res["mal"]]
+    own = "[" + "; ".join(coutcome(o) for o in res["own_outcomes"]) + "]"
+    loads = [f"agree_load k2p_load s {cstate(m['state'])} {cstrs(m['groups'])} {coutcome(m['outcome'])}" for m in res["mal"]]
     malobs = [f"(MOwn, {coutcome(o)})" for o in res["own_outcomes"]]
     malobs += [f"({m['kind']}, {coutcome(m['outcome'])})" for m in res["mal"] if m["kind"].startswith("M")]
     resumed = "[" + ";\n  ".join(f"({k}%nat, [" + "; ".join(cZs(b) for b in tr) + "])" for k, tr in res["resumed"]) + "]"
@@ -445,6 +453,7 @@ def coq_case(res) -> str:
             f"Definition unint := toZ unint_i.\nDefinition resumed := map (fun kr => (fst kr, toZ (snd kr))) resumed_i.\n"
             f"Definition obs := mkObs unint resumed (map fst own_state) (map snd own_state) own_groups [{'; '.join(malobs)}].\n"
             f"Eval vm_compute in show_bools (agree_save k2p s own_state own_groups :: agree_paths s own_state :: C09_checkb obs :: "
+            f"(let m := outcome_of (x_load k2p_load s (x_ckpt own_state own_groups)) in map (outcome_eqb m) {own}) ++ "
             f"[{'; '.join(loads)}]).\n")
 
 
@@ -527,19 +536,27 @@ def run(ck: Check) -> None:
         elif "F" in v or not res["keys_by_k_same"]:
             bad_tie.append((i, v))
 
-    for i, v in bad_prop[:6]:
+    seen = set()
+    for i, v in bad_prop:
+        if len(seen) >= 4:
+            break
         case, res = cases[i], results[i]
         items = [("own", o, k) for k, o in enumerate(res["own_outcomes"]) if o != "Ok"]
         items += [("mal", m) for m in res["mal"] if m["kind"] in EXPECTED and m["outcome"] != EXPECTED[m["kind"]]]
         dupl = [n for n, ks in res["own_state"] if len({json.dumps(k) for k in ks}) != len(ks)]
         if items:
-            for it in items[:2]:
+            for it in items:
+                sig0 = (classify(case, res, it), it[0], it[1] if it[0] == "own" else (it[1]["kind"], it[1]["outcome"]))
+                if sig0 in seen:
+                    continue
+                seen.add(sig0)
                 what = (f"loading the optimizer's own distributed state dict (stop point k={it[2]}) raised {it[1]}" if it[0] == "own" else
                         f"load_distributed_state_dict on a checkpoint with {it[1]['kind']} {it[1]['what']} ended with {it[1]['outcome']} instead of {EXPECTED[it[1]['kind']]}")
                 ck.report(classify(case, res, it), f"C09 fails on the implementation: {what}; C09_checkb = false",
                           {"kind": "property-fails", "case": case, "layout": res["layout"], "observed": it[1] if it[0] == "own" else it[1]["outcome"],
                            "detail": None if it[0] == "own" else it[1]["what"], "diag": res["diag"][:5], "predicate": "CheckpointChecker.C09_checkb"})
-        else:
+        elif "diverges" not in seen:
+            seen.add("diverges")
             ck.report(None, "C09 fails on the implementation: " + ("; ".join(res["diag"][:3]) or (f"duplicate flat keys under {dupl}" if dupl else "C09_checkb = false")),
                       {"kind": "property-fails", "case": case, "layout": res["layout"], "diag": res["diag"][:10], "predicate": "CheckpointChecker.C09_checkb (resumed trajectory == uninterrupted trajectory bit for bit, unique keys, expected exception classes)"})
     if bad_tie and not bad_prop:
